@@ -82,6 +82,7 @@ type ExtModel struct {
 	Writes   []int // parameters whose memory is written
 	RetAlias []int // parameters the (first) result may alias
 	Retains  []int // parameters retained beyond the call (escape)
+	Capped   bool  // the result has cap == len (append to it reallocates)
 }
 
 // TaintEngine computes summaries for a set of functions.
@@ -95,6 +96,7 @@ type TaintEngine struct {
 	Sum        map[*ssa.Function]*TSummary
 	UsedModels map[string]int
 	callSites  map[*ssa.Function][]ssa.CallInstruction
+	funcFields map[FieldID][]ssa.Value
 }
 
 func NewTaintEngine(p *Prog) *TaintEngine {
@@ -142,7 +144,7 @@ func NewTaintEngine(p *Prog) *TaintEngine {
 		"bytes.Cut":           {RetAlias: []int{0}},
 		"bytes.NewBuffer":     {RetAlias: []int{0}, Retains: []int{0}},
 		"bytes.NewReader":     {RetAlias: []int{0}, Retains: []int{0}},
-		"slices.Clip":         {RetAlias: []int{0}},
+		"slices.Clip":         {RetAlias: []int{0}, Capped: true},
 		"slices.Grow":         {RetAlias: []int{0}},
 		"encoding/pem.Decode": {RetAlias: []int{0}},
 		"sync.Pool.Put":       {Retains: []int{0}},
@@ -737,6 +739,18 @@ func (s *fnState) call(ci ssa.CallInstruction) bool {
 			return ch
 		}
 	}
+	// call through a function-typed unexported struct field: every value ever stored into it is known
+	if !cc.IsInvoke() {
+		if targets, ok := s.t.fieldFuncTargets(cc.Value); ok {
+			ch := false
+			for _, tg := range targets {
+				if s.applySummary(in, tg, cc.Args, nil, result) {
+					ch = true
+				}
+			}
+			return ch
+		}
+	}
 	// sync.Pool.Get
 	if s.t.TrackPools && callIs(ci, "sync", "Pool", "Get") && result != nil {
 		id, _ := lockIdent(cc.Args[0])
@@ -774,6 +788,10 @@ func (s *fnState) call(ci ssa.CallInstruction) bool {
 					s.sink("e", ls, in, "retained by "+shortID(key))
 				}
 			}
+		}
+		if m.Capped && result != nil && !s.capped[result] {
+			s.capped[result] = true
+			ch = true
 		}
 		for _, i := range m.RetAlias {
 			if i < len(args) && result != nil {
@@ -930,6 +948,85 @@ func (t *TaintEngine) paramFuncTargets(fn *ssa.Function, pa *ssa.Parameter) (tar
 		}
 	}
 	return targets, bound, true
+}
+
+// fieldFuncTargets: v is the value of an unexported function-typed field of a
+// module struct; returns the module functions stored into that field anywhere
+// in the module. ok=false when a stored value is not a known function, or when
+// a stored closure's effect on tracked memory goes through a captured variable
+// (whose binding is not available at the call).
+func (t *TaintEngine) fieldFuncTargets(v ssa.Value) ([]*ssa.Function, bool) {
+	var id FieldID
+	switch x := v.(type) {
+	case *ssa.UnOp:
+		fa, ok := x.X.(*ssa.FieldAddr)
+		if !ok || x.Op != token.MUL {
+			return nil, false
+		}
+		id = fieldIDOfAddr(fa)
+	case *ssa.Field:
+		id = fieldIDOfField(x)
+	default:
+		return nil, false
+	}
+	if id.Type == "" || token.IsExported(id.Field) || !strings.HasPrefix(id.Type, t.P.ModPath) {
+		return nil, false
+	}
+	if t.funcFields == nil {
+		t.funcFields = map[FieldID][]ssa.Value{}
+		for _, fn := range t.P.Funcs {
+			allInstrs(fn, func(in ssa.Instruction) {
+				st, ok := in.(*ssa.Store)
+				if !ok {
+					return
+				}
+				fa, ok := st.Addr.(*ssa.FieldAddr)
+				if !ok {
+					return
+				}
+				if _, isSig := st.Val.Type().Underlying().(*types.Signature); isSig {
+					k := fieldIDOfAddr(fa)
+					t.funcFields[k] = append(t.funcFields[k], st.Val)
+				}
+			})
+		}
+	}
+	vals := t.funcFields[id]
+	if len(vals) == 0 {
+		return nil, false
+	}
+	var out []*ssa.Function
+	for _, sv := range vals {
+		var f *ssa.Function
+		switch y := sv.(type) {
+		case *ssa.Function:
+			f = y
+		case *ssa.MakeClosure:
+			f, _ = y.Fn.(*ssa.Function)
+		}
+		if f == nil || !t.P.funcSet[origin(f)] {
+			return nil, false
+		}
+		f = origin(f)
+		if sum := t.Sum[f]; sum != nil {
+			for _, m := range []map[string][]TSite{sum.Writes, sum.Escapes} {
+				for l := range m {
+					if strings.HasPrefix(l, "fv") {
+						return nil, false
+					}
+				}
+			}
+			for _, ls := range sum.Ret {
+				for l := range ls {
+					if strings.HasPrefix(l, "fv") {
+						return nil, false
+					}
+				}
+			}
+		}
+		out = append(out, f)
+	}
+	return out, true
 }
 
 // lastStoreInBlock: the last store to cell that precedes load in the same
